@@ -310,6 +310,63 @@ func c16KnownUnresolvable(b string) bool {
 	return !(strings.Contains(b, "cannot get") || strings.Contains(b, "cannot fetch") || strings.Contains(b, "cannot call") || strings.Contains(b, "undefined"))
 }
 
+// c16NilSafe: CreateTypesTable(nil) is no table; `a?.b` / `a?.b()` on a receiver that has no such member
+// (or is nil) yields nil at run time instead of failing — the run-time half of "accepted => resolvable"
+// for the nil-safe forms the checker accepts.
+func c16NilSafe(c *Ctx, envs []zooEnv) {
+	func() {
+		real := ""
+		defer func() {
+			if r := recover(); r != nil {
+				real = fmt.Sprintf("PANIC %v", r)
+			}
+			c.R.Case("table|nil environment", true)
+			if real != "nil" {
+				c.R.Mismatch("c16/table", "nil environment", "nil", real)
+			}
+		}()
+		real = realTableCanon(conf.CreateTypesTable(nil))
+	}()
+	var mapEnv, nested interface{}
+	for _, e := range envs {
+		if e.Name == "map[string]interface{}" {
+			mapEnv = e.Val
+		}
+		if e.Name == "EnvNested" {
+			nested = e.Val
+		}
+	}
+	type probe struct {
+		env interface{}
+		src string
+	}
+	probes := []probe{
+		// (a receiver that is nil, or a non-indexable value without that member; a string or slice receiver
+		// is indexed instead and a non-nil receiver of a nil-safe call must have the method: the dynamic
+		// value decides, no static claim)
+		{mapEnv, "nilv?.x"}, {mapEnv, "nilv?.Foo()"}, {mapEnv, "nilv?.x?.y"}, {mapEnv, "a?.x"},
+		{mapEnv, "st?.Nope"}, {mapEnv, "m?.nope?.deeper"}, {mapEnv, "nope?.x"},
+		{nested, "I?.x"}, {nested, "MA?.nope?.deeper"}, {nested, "MA.nope?.Foo()"},
+	}
+	for _, p := range probes {
+		if p.env == nil {
+			c.R.Mismatch("generator", "nil-safe probes", "", "environment missing from the zoo")
+			return
+		}
+		rv := compileRun16(p.src, p.env)
+		c.R.Case("nilsafe|"+p.src, true)
+		c.R.Count("nilsafe:probes", 1)
+		if !rv.accepted {
+			c.R.Mismatch("c16/nilsafe", p.src, "accepted (receiver of interface or nil type)", rv.cerr)
+			continue
+		}
+		if !rv.ran || rv.out != nil {
+			violateKeyed16(c, Violation{What: "a nil-safe member access accepted by the checker does not resolve to nil at run time", Key: "c16:nil-safe-access-not-resolvable",
+				Input: c16Input{fmt.Sprintf("%T", p.env), fmt.Sprintf("%T", p.env), p.src, p.src}, Expect: "nil", Got: fmt.Sprintf("ran=%v out=%v err=%s", rv.ran, rv.out, rv.rerr)})
+		}
+	}
+}
+
 var exprReserved = map[string]bool{
 	"true": true, "false": true, "nil": true, "not": true, "in": true, "and": true, "or": true,
 	"matches": true, "contains": true, "startsWith": true, "endsWith": true,
@@ -832,6 +889,9 @@ func runC16(c *Ctx) {
 
 	// ---------------------------------------------------------------- 4. cyclic embedding (child process)
 	c16CyclicEmbedding(c)
+
+	// ---------------------------------------------------------------- 5. no environment; nil-safe access at run time
+	c16NilSafe(c, envs)
 
 	for _, k := range []string{"ident:accepted", "ident:rejected", "call:accepted", "member:accepted", "member:rejected", "membercall:accepted"} {
 		if c.R.Counters[k] == 0 {
